@@ -369,7 +369,7 @@ func (s *ProofStructure) CommitmentsFromSecrets(g *gabikeys.PublicKey, m, mRando
 
 	bases := zkproof.NewBaseMerge(g, commit)
 
-	var contributions []*big.Int
+	contributions := s.statementContributions(commit.c)
 	contributions = s.mCorrect.CommitmentsFromSecrets(g, contributions, &bases, commit)
 	for i := range commit.d {
 		contributions = s.cRep[i].CommitmentsFromSecrets(g, contributions, &bases, commit)
@@ -379,6 +379,19 @@ func (s *ProofStructure) CommitmentsFromSecrets(g *gabikeys.PublicKey, m, mRando
 	s.randomizers = (*ProofCommit)(commit)
 
 	return contributions, (*ProofCommit)(commit), nil
+}
+
+// statementContributions returns the part of the challenge input that fixes what is being proved: the statement
+// (sign, factor, bound, size of the squares) and the commitments to the squares. Without these in the hash a
+// prover could choose the bound and the commitments after seeing the challenge, and prove a false statement.
+func (s *ProofStructure) statementContributions(cs []*big.Int) []*big.Int {
+	l := []*big.Int{
+		big.NewInt(int64(s.sign)),
+		new(big.Int).SetUint64(uint64(s.a)),
+		new(big.Int).Set(s.k),
+		new(big.Int).SetUint64(uint64(s.ld)),
+	}
+	return append(l, cs...)
 }
 
 func (s *ProofStructure) BuildProof(commit *ProofCommit, challenge *big.Int) *Proof {
@@ -446,7 +459,7 @@ func (s *ProofStructure) VerifyProofStructure(g *gabikeys.PublicKey, p *Proof) b
 func (s *ProofStructure) CommitmentsFromProof(g *gabikeys.PublicKey, p *Proof, challenge *big.Int) []*big.Int {
 	bases := zkproof.NewBaseMerge(g, (*proof)(p))
 
-	var contributions []*big.Int
+	contributions := s.statementContributions(p.Cs)
 	contributions = s.mCorrect.CommitmentsFromProof(g, contributions, challenge, &bases, (*proof)(p))
 	for i := range s.cRep {
 		contributions = s.cRep[i].CommitmentsFromProof(g, contributions, challenge, &bases, (*proof)(p))
